@@ -29,6 +29,16 @@ CLAIMED["C14"] = dict(
    note="Trusted: go/ssa, local store-to-load forwarding within a block; closed-world over the module's packages. Two addressable globals are allow-listed with reasons (vm.errorNilValue, env.NilValue) and their uses checked.",
    technique="SSA effect / ownership (who-may-write) analysis with positive control",
    design="4 C14")
+CLAIMED["C04"] = dict(
+   text="Typestate analysis of the scope cell of the interpreter's per-run record over every function of vm: (R1) every function that switches the scope restores the entry scope at every return, on every exit path — with the inductive hypothesis that callees do the same this is the 'after any statement, by any exit, execution continues in the scope current before it' clause for all programs; (R2) block statements run in a fresh child scope; (R3) who-may-call discipline for binding forms (assignment = set nearest else define here with the same name and value; var / for-in / catch / parameters define in the current scope; no global define); (R4) function values capture the defining scope at creation and every invocation gets a fresh record and a fresh child scope. Name lookup order is decided under C12.",
+   note="Trusted: go/ssa; the abstraction Orig/Child/Other of the scope cell; callee-preserves-scope is the induction hypothesis discharged by the same rule on every callee. One reasoned exception (NewModule error edge, infeasible for parsed identifiers).",
+   technique="SSA typestate (pairing) dataflow on the interpreter's scope cell + who-may-call rules",
+   design="4 C04")
+CLAIMED["C07"] = dict(
+   text="Path analysis of every handler over 'evaluation events' (calls of the four dispatchers on the current record, tagged with the operand path held by the expr/stmt cell): at most once per path (with index-loop and script-loop retirement), source order of operand fields taken from the grammar actions ($n ranks), ascending list indices, error cell provably nil at every event (abstract error-cell analysis with boolean-sensitive callee summaries), the short-circuit structure of ?:, ||, &&, ??, the fast path reporting 'not handled' only before any evaluation, and no evaluation in code that runs later for go/defer. These are value-independent path properties, so they hold for all programs. The documented double evaluation of x op= e and the order inside host functions are outside.",
+   note="Trusted: go/ssa, operand-path abstraction (node.Field[index]), callee summaries of the error cell. One known finding (receive statement ignores an error of the ok target; pinned by a test).",
+   technique="SSA dataflow over evaluation events (may-set / ordering / typestate of the error cell)",
+   design="4 C07")
 NOT_YET = "checker for this property is not built yet in this revision (see DESIGN.md section 4 for the planned static rules)"
 ALL = ["C%02d" % i for i in range(1, 21)]
 
